@@ -126,6 +126,9 @@ type vcase struct {
 
 var bounded = literal.NewBoundedBuilder(1 << 20)
 
+// bounded8 accepts text and blobs of at most 8 bytes (and every number): what it can build it must read back
+var bounded8 = literal.NewBoundedBuilder(8)
+
 // stall reports calls that do not return (set in main)
 var stall *common.StallWatch
 
@@ -145,10 +148,13 @@ func parseVia(via, text string) (key, reprint string, isNil bool, err error) {
 			return "", "", p == nil, e
 		}
 		return vals.PredKey(p, true), p.String(), false, nil
-	case "literal.Parse", "literal.BoundedParse":
+	case "literal.Parse", "literal.BoundedParse", "literal.BoundedParse8":
 		b := literal.DefaultBuilder()
 		if via == "literal.BoundedParse" {
 			b = bounded
+		}
+		if via == "literal.BoundedParse8" {
+			b = bounded8
 		}
 		l, e := b.Parse(text)
 		if e != nil || l == nil {
@@ -502,6 +508,16 @@ func levelValues(r *common.Run) {
 	r.Set("blob_values", len(blobs))
 	runSpecs(r, "literals", len(lits), func(i int) []*vals.Spec { return []*vals.Spec{lits[i]} },
 		[]string{"literal.Parse", "literal.BoundedParse"})
+	// what a builder bounded at 8 bytes can hold: numbers, bools, texts and blobs of at most 8 bytes (blobs of 8 bytes
+	// with three-digit values print four characters per byte)
+	var small []*vals.Spec
+	for _, l := range lits {
+		if (l.T != "text" && l.T != "blob") || len(l.V) <= 8 {
+			small = append(small, l)
+		}
+	}
+	small = append(small, vals.BlobSpec([]byte{255, 254, 253, 252, 251, 250, 249, 248}), vals.BlobSpec([]byte{128, 128, 128, 128, 128, 128, 128}), vals.TextSpec("12345678"))
+	runSpecs(r, "literals_bounded8", len(small), func(i int) []*vals.Spec { return []*vals.Spec{small[i]} }, []string{"literal.BoundedParse8"})
 	runSpecs(r, "literal_objects", len(lits), func(i int) []*vals.Spec { return []*vals.Spec{vals.ObjSpec(lits[i])} },
 		[]string{"triple.ParseObject"})
 	r.Sample(map[string]interface{}{"value": vals.TempSpec(`a"]`, core[5]), "via": "predicate.Parse"})
